@@ -3,6 +3,7 @@
 From Coq Require Import List NArith Bool Permutation.
 From SV Require Import Fmt.VpkDir Fmt.VpkDirProofs Fmt.VpkName Fmt.VpkNameSplit Fmt.VpkNameProofs SM.Vpk SM.VpkProofs.
 From SV Require Import Fmt.VpkArchName Fmt.VpkArchNameProofs SM.VpkRefine Fmt.VpkDirV2.
+From SV Require Import Fmt.VpkNullStr Fmt.VpkNullStrProofs.
 Import ListNotations.
 Open Scope N_scope.
 
@@ -189,3 +190,49 @@ Proof. exact dirtree_roundtrip_v2. Qed.
 (** The two-version decoder agrees with the version-1 decoder the other theorems are about. *)
 Theorem c13_dec_file_v_extends_v1 : forall c bs es f, dec_file c bs = Some (es, f) -> dec_file_v c bs = Some (1, es, f).
 Proof. exact dec_file_v_v1. Qed.
+
+(** ---- the NUL-terminated strings of the tree (Fmt/VpkNullStr.v; the instance is Gen/VpkNullStr_gen.v g_ncodec) ---- *)
+
+(** The reader shapes accepted by [reader_ok] (one byte at a time, or blocks of a positive size in a loop) take exactly the bytes
+    up to the next NUL off the file, whatever their number, and fail exactly when there is none: they are [read_cstr], the reader
+    the directory codec is defined with, on every input. *)
+Theorem c13_nullstr_reader_shapes : forall r, reader_ok r = true -> forall bs, read_cstr_r r bs = read_cstr bs.
+Proof. exact reader_ok_is_read_cstr. Qed.
+
+(** If the translated description of _write_nullstring / iter_nullstr satisfies [ncodec_ok] (instance obligation), the two
+    functions are the [write_cstr] / [next_str] of Fmt/VpkDir.v that c13_dirtree_roundtrip and the whole-history theorems use. *)
+Theorem c13_nullstr_codec_is_model : forall k, ncodec_ok k = true ->
+  (forall s, write_cstr_k k s = write_cstr s) /\ (forall bs, next_str_k k bs = next_str bs).
+Proof. exact ncodec_ok_is_model. Qed.
+
+(** Every representable tree string (no NUL, bytes < 256, not the single space) of ANY length is read back, followed by anything. *)
+Theorem c13_nullstr_roundtrip : forall k, ncodec_ok k = true -> forall s rest, str_ok s = true ->
+  next_str_k k (write_cstr_k k s ++ rest) = Some (Some s, rest).
+Proof. exact nullstr_roundtrip. Qed.
+
+(** A whole section: the generator yields exactly the strings written, in order, and leaves the file right after the terminator. *)
+Theorem c13_nullstr_section_roundtrip : forall k, ncodec_ok k = true -> forall l rest, forallb str_ok l = true ->
+  iter_nullstr_k k (write_section_k k l ++ rest) = Some (l, rest).
+Proof. exact nullstr_section_roundtrip. Qed.
+
+(** A reader that searches one block of n bytes only cannot read any NUL-free string of n or more bytes: for every block size
+    there are names the writer accepts and the archive cannot be reopened with (seeded fault c13_4 is n = 256). *)
+Theorem c13_nullstr_block_reader_refuted : forall n s rest,
+  forallb (fun b => negb (b =? 0)) s = true -> (N.to_nat n <= length s)%nat ->
+  read_cstr_r (RBlock n) (s ++ 0 :: rest) = None.
+Proof. exact block_reader_refuted. Qed.
+
+Theorem c13_nullstr_block_256_refuted :
+  let s := repeat 97 256 in
+  str_ok s = true /\ next_str (write_cstr s ++ [7]) = Some (Some s, [7])
+  /\ next_str_k (ncodec_block 256) (write_cstr_k (ncodec_block 256) s ++ [7]) = None
+  /\ ncodec_ok (ncodec_block 256) = false
+  /\ next_str_k (ncodec_block 256) (write_cstr_k (ncodec_block 256) (repeat 97 255) ++ [7]) = Some (Some (repeat 97 255), [7]).
+Proof. exact block_256_refuted. Qed.
+
+(** Non-vacuity of [ncodec_ok]; a looping block reader is accepted. *)
+Theorem c13_nullstr_premises_satisfiable : ncodec_ok ncodec_pinned = true
+  /\ reader_ok (RBlockLoop 256) = true
+  /\ iter_nullstr_k ncodec_pinned (write_section_k ncodec_pinned [[116; 120; 116]; []; repeat 101 300] ++ [1; 2])
+     = Some ([[116; 120; 116]; []; repeat 101 300], [1; 2]).
+Proof. exact ncodec_pinned_ok. Qed.
